@@ -152,11 +152,17 @@ Permute(rows, p) == [i \in DOMAIN rows |-> rows[p[i]]]
 C08StopTimes == <<StopTime(1, 4, 2, T(8, 0, 0), T(8, 1, 0)), StopTime(1, 5, 10, T(9, 0, 0), T(9, 1, 0)), StopTime(1, 1, 9, T(8, 30, 0), T(8, 31, 0)),
                   StopTime(2, 1, 100, T(7, 0, 0), T(7, 0, 0)), StopTime(2, 5, 9, T(6, 0, 0), T(6, 0, 0)), StopTime(2, 4, 10, T(6, 30, 0), T(6, 30, 0))>>
 C08Shapes == <<ShapePt(3, 2, 3, 2), ShapePt(3, 10, 1, 1), ShapePt(3, 9, 5, 6), ShapePt(1, 100, 8, 9), ShapePt(1, 9, 2, 2), ShapePt(2, 1, 1, 1)>>
+C08Glued == <<ShapePt(3, 21, 3, 2), ShapePt(4, 1, 1, 1), ShapePt(3, 1, 5, 6), ShapePt(4, 21, 8, 9)>>
+C08GluedSt == <<StopTime(1, 4, 21, T(8, 0, 0), T(8, 1, 0)), StopTime(3, 5, 1, T(9, 0, 0), T(9, 1, 0)), StopTime(1, 1, 1, T(7, 30, 0), T(7, 31, 0)), StopTime(3, 1, 21, T(9, 30, 0), T(9, 30, 0))>>
+C08GluedFeed == SetRows(SetRows(BaseFeed, "trips.txt", <<Trip(1, 1, 3, Id(3)), Trip(3, 3, 2, Blank)>>), "frequencies.txt", <<Freq(3, T(6, 0, 0), T(9, 30, 0), 600)>>)
 PoolC08(z) ==
     {MkCase(SetRows(BaseFeed, "stop_times.txt", Permute(C08StopTimes, p)), FALSE, <<SetRows(BaseFeed, "stop_times.txt", C08StopTimes)>>, FALSE, "C08.permutation", 0)
         : p \in Perms(6)}
     \cup {MkCase(SetRows(BaseFeed, "shapes.txt", Permute(C08Shapes, p)), FALSE, <<SetRows(BaseFeed, "shapes.txt", C08Shapes)>>, FALSE, "C08.permutation", 0)
         : p \in Perms(6)}
+    \cup (* ids and sequence numbers that read the same when written one after the other: ("Sh", 21) and ("Sh2", 1); ("T1", 21) and ("T12", 1) *)
+    {MkCase(SetRows(BaseFeed, "shapes.txt", Permute(C08Glued, p)), FALSE, <<SetRows(BaseFeed, "shapes.txt", C08Glued)>>, FALSE, "C08.permutation", 0) : p \in Perms(4)}
+    \cup {MkCase(SetRows(C08GluedFeed, "stop_times.txt", Permute(C08GluedSt, p)), FALSE, <<SetRows(C08GluedFeed, "stop_times.txt", C08GluedSt)>>, FALSE, "C08.permutation", 0) : p \in Perms(4)}
 
 C08Shape5 == <<ShapePt(3, 1, 1, 1), ShapePt(3, 2, 2, 2), ShapePt(3, 3, 3, 3), ShapePt(3, 4, 4, 4), ShapePt(3, 5, 5, 5)>>
 PoolC08shape5(z) ==
